@@ -9,6 +9,9 @@
 
 static mjModel* verif_scene(int nbody, int nlink, long long memory, int cone_elliptic, int islands, int cluster,
                             char* err, int errsz) {
+  // cluster = c + 10 * (number of additional hinge bodies without joint limit)
+  int nfreehinge = cluster / 10;
+  cluster %= 10;
   mjSpec* s = mj_makeSpec();
   if (memory >= 0) s->memory = (mjtSize)memory;
   s->option.cone = cone_elliptic ? mjCONE_ELLIPTIC : mjCONE_PYRAMIDAL;
@@ -44,6 +47,15 @@ static mjModel* verif_scene(int nbody, int nlink, long long memory, int cone_ell
     g->type = mjGEOM_CAPSULE; g->size[0] = 0.02; g->size[1] = 0.08;
     g->contype = 0; g->conaffinity = 0;
     parent = b;
+  }
+  for (int i = 0; i < nfreehinge; i++) {
+    mjsBody* b = mjs_addBody(world, NULL);
+    b->pos[0] = 4.0 + 0.5 * i; b->pos[2] = 2.0;
+    mjsJoint* j = mjs_addJoint(b, NULL);
+    j->type = mjJNT_HINGE; j->axis[0] = 0; j->axis[1] = 1; j->axis[2] = 0;
+    mjsGeom* g = mjs_addGeom(b, NULL);
+    g->type = mjGEOM_CAPSULE; g->size[0] = 0.02; g->size[1] = 0.08;
+    g->contype = 0; g->conaffinity = 0;
   }
   mjModel* m = mj_compile(s, NULL);
   if (!m && err) snprintf(err, errsz, "%s", mjs_getError(s));
